@@ -44,6 +44,7 @@ type drvRequest struct {
 	Args          []string          `json:"args,omitempty"`
 	Env           map[string]string `json:"env,omitempty"`
 	Config        *string           `json:"config,omitempty"`
+	ConfigVia     string            `json:"config_via,omitempty"`
 }
 
 type drvPhase struct {
